@@ -100,6 +100,7 @@ Plan gen_c35(sk::Rng& r, Tier) {
     gen_w4_knobs(p, r);
     p.knobs["deschedule"] = r.pick<std::int64_t>({0, 0, 30, 200});   // long preemptions of arbitrary threads
     p.knobs["token"] = r.chance(1, 4);
+    p.knobs["stored_size"] = r.pick<std::int64_t>({900, 900, 900, 150000, 600000});  // the chunk the daemon holds; the larger ones exceed what the socket buffers absorb
     const int n = static_cast<int>(r.range(3, 10));
     for (int i = 0; i < n; ++i) {
         Op op;
@@ -109,8 +110,10 @@ Plan gen_c35(sk::Rng& r, Tier) {
         else if (c < 32) { op.k = "t_hs_shape"; op.a = {r.chance(1, 4) ? 7 : static_cast<std::int64_t>(r.below(7)), static_cast<std::int64_t>(r.below(3)), static_cast<std::int64_t>(r.below(1u << 30))}; }
         else if (c < 62) {
             op.k = "t_session";  // three signed/unsigned actions on an established session, then how the peer leaves
-            op.a = {static_cast<std::int64_t>(r.below(14)), static_cast<std::int64_t>(r.below(14)), static_cast<std::int64_t>(r.below(14)),
+            op.a = {static_cast<std::int64_t>(r.below(16)), static_cast<std::int64_t>(r.below(16)), static_cast<std::int64_t>(r.below(16)),
                     static_cast<std::int64_t>(r.below(kManifestForgeries)), static_cast<std::int64_t>(r.below(3)), static_cast<std::int64_t>(r.below(1u << 30)), r.pick<std::int64_t>({1, 2, 3, 4, 4, 17})};
+            // actions 14/15: ask for the held chunk and stop draining the socket (entirely / to a trickle); mostly the peer then just stays
+            if ((op.a[0] >= 14 || op.a[1] >= 14 || op.a[2] >= 14) && r.chance(2, 3)) op.a[4] = 2;
         }
         else if (c < 70) { op.k = "t_poison"; op.a = {static_cast<std::int64_t>(r.below(17)), r.chance(3, 4) ? 0 : static_cast<std::int64_t>(r.below(kManifestForgeries)), static_cast<std::int64_t>(r.below(3)), static_cast<std::int64_t>(r.below(1u << 30)), static_cast<std::int64_t>(r.below(2))}; }
         else if (c < 82) { op.k = "c_raw"; op.a = {static_cast<std::int64_t>(r.below(24)), static_cast<std::int64_t>(r.below(4)), static_cast<std::int64_t>(r.below(1u << 30))}; }
@@ -167,7 +170,7 @@ void exec_c35(const Plan& p, Ctx& ctx) {
     honest.start("honest", sk::ip(10, 0, 9, 1));
     // set-up: an honest STORE (the daemon then holds a chunk; its manifest tells us the daemon's identity)
     {
-        const auto pl = make_payload(900, 35001);
+        const auto pl = make_payload(static_cast<std::size_t>(p.knob("stored_size", 900)), 35001);
         e.stored_plain.assign(pl.begin(), pl.end());
         std::vector<std::pair<std::string, std::string>> f{{"COMMAND", "STORE"}, {"TTL", "900"}, {"STORE-POW", std::to_string(ref_solve_store_pow(e.stored_plain, "", 6))}, {"PAYLOAD-LENGTH", std::to_string(e.stored_plain.size())}};
         if (e.token) f.push_back({"TOKEN", *e.token});
@@ -283,6 +286,7 @@ void exec_c35(const Plan& p, Ctx& ctx) {
             const int forgery = static_cast<int>(op.at(3));
             label = std::string("t_session.") + forgery_name[forgery];
             ctx.probe(std::string("forgery_") + forgery_name[forgery]);
+            bool hard_of_hearing = false;  // the peer asked for the chunk and stays connected without (properly) reading
             a.call([&] {
                 PeerConn c;
                 const PeerIdentity me = PeerIdentity::make(static_cast<std::uint8_t>(0x60 + opn), 1300021u + static_cast<std::uint32_t>(opn) * 15485863u);
@@ -324,6 +328,14 @@ void exec_c35(const Plan& p, Ctx& ctx) {
                         case 7: { std::uint8_t hdr[16] = {}; const std::uint32_t len = static_cast<std::uint32_t>(g.pick<std::int64_t>({0, 0xffffffffLL, 0x7fffffff, 1048577, 70000})); hdr[12] = len >> 24; hdr[13] = len >> 16; hdr[14] = len >> 8; hdr[15] = len; ok = c.send_all(hdr, 16); std::uint8_t some[40] = {}; c.send_all(some, sizeof some); break; }  // length field lies
                         case 8: { pr::Message m{}; m.type = pr::MessageType::Acknowledge; m.payload = pr::AcknowledgePayload{make_id(static_cast<std::uint8_t>(g.below(256)), 0x36), me.id, g.chance(1, 2)}; ok = send(m); break; }
                         case 9: { pr::Message m{}; m.type = g.chance(1, 2) ? pr::MessageType::TransportHandshake : pr::MessageType::HandshakeAck; if (m.type == pr::MessageType::TransportHandshake) m.payload = pr::TransportHandshakePayload{me.pub, 1, 4}; else m.payload = pr::HandshakeAckPayload{true, 4, me.pub}; ok = send(m); break; }
+                        case 14: case 15: {
+                            // asks for the chunk the daemon holds and does not drain its socket: the daemon's blocking send must not hold the node
+                            if (act == 14) { c.rx->deaf = true; ctx.boundary("peer_requests_chunk_and_stops_reading"); }
+                            else { c.rx->drip_bytes = static_cast<std::size_t>(g.pick<std::int64_t>({1, 64, 1024})); c.rx->drip_ns = g.pick<std::int64_t>({500, 2000, 4000}) * kMs; ctx.boundary("peer_requests_chunk_and_reads_a_trickle"); }
+                            pr::Message m{}; m.type = pr::MessageType::Request; m.payload = pr::RequestPayload{e.stored.chunk_id, me.id}; ok = send(m);
+                            if (ok) hard_of_hearing = true;
+                            break;
+                        }
                         case 13: {
                             // a correctly signed message (exact MAC over exactly these bytes) whose inner length fields lie
                             auto body = encoding_with_lying_lengths(g, me.id);
@@ -342,7 +354,22 @@ void exec_c35(const Plan& p, Ctx& ctx) {
                 }
                 sk::sleep_ns(500 * kMs);
                 leave(c, static_cast<int>(op.at(4)));
+                if (op.at(4) != 2) hard_of_hearing = false;
             });
+            if (hard_of_hearing && sk::alive(e.d.pid)) {
+                // the peer is still there, not reading. Everyone else must be served within the bound all the same.
+                ++stalled_transport;
+                const std::int64_t t0 = sk::now_ns(), give_up = t0 + honest_bound_ms() * kMs;
+                bool ok = false;
+                for (int i = 0; !ok && sk::now_ns() < give_up && sk::alive(e.d.pid); ++i) ok = honest_handshake(e, honest, 200 + opn * 8 + i % 8, 10000);
+                CtlReply rep;
+                if (ok) honest.call([&] { while (!rep.got_status && sk::now_ns() < give_up && sk::alive(e.d.pid)) rep = ctl_exchange(e.host, e.d.control_port, ctl_headers({{"COMMAND", "LIST"}}), {}, false, 10000); });
+                if ((!ok || !rep.got_status) && sk::alive(e.d.pid))
+                    ctx.violate("C35.peer_that_does_not_read_stops_service", fmt("a peer asked for the %zu-byte chunk the daemon holds and stopped draining its socket; %.0f s later %s", e.stored_plain.size(), (sk::now_ns() - t0) / 1e9,
+                                                                                 ok ? "an honest LIST is still unanswered" : "no honest handshake has been answered"));
+                ok = ok && rep.got_status;
+                if (ok) ctx.probe(sk::now_ns() - t0 < 2 * kSec ? "served_at_once_beside_a_non_reading_peer" : "served_after_a_wait_beside_a_non_reading_peer");
+            }
         } else if (op.k == "t_poison") {
             // two-step attack: get a contact with an awkward endpoint accepted, then make the node use it
             Actor& a = attacker();
@@ -473,9 +500,9 @@ Scenario make_c35() {
     s.technique = "deterministic simulation: the real `eph serve` main (real signal dispositions, accept/reader/tick threads as fibers) under byzantine transport peers (pre-handshake bytes, malformed handshakes, validly signed messages with forged manifests / shard sets / lengths / TTLs, resets mid-request) and byzantine control clients (arbitrary header bytes, lying lengths, forged manifests, early close or reset), interleaved with honest clients; liveness of the process, sanitizer reports and bounded recovery (PING, LIST, handshake within 60 s) are the oracle";
     s.real_components = {"src/main.cpp serve path (real main())", "ControlServer", "Node (handle_transport_message, handle_announce, handle_chunk, receive_chunk, fetch_chunk)", "SessionManager accept/reader threads", "protocol and manifest codecs, Shamir, ChaCha20"};
     s.stub_components = {"OS seams (fibers, simulated TCP with RST/EPIPE/SIGPIPE semantics, clock, entropy, file seam)", "attackers and honest clients are scripted"};
-    s.assumptions = {"a byzantine peer that merely stays connected and silent is exercised (leave mode 2) but the run only demands service for others after the attackers have gone",
+    s.assumptions = {"while byzantine peers stay connected (silent, or not draining what they asked for) honest requests must be answered within 60 s + 16 s per silent control connection + 3 s per silent transport connection; the repaired sender gives up on a non-draining peer after 5 s without progress or when a frame is slower than 16 KiB/s",
                      "the relay server and the STUN client are judged under C25/C26 and C33"};
-    s.rule = "plan = network knobs, token on/off, 3..10 operations (pre-handshake bytes, lying length, handshake shapes, session scripts of three actions with one of 13 manifest forgeries and a leave mode, raw control requests, forged FETCH, honest requests); non-trivial = any byzantine operation; distinct = plan hash";
+    s.rule = "plan = network knobs, token on/off, 3..10 operations (pre-handshake bytes, lying length, handshake shapes, session scripts of three actions with one of 13 manifest forgeries and a leave mode — among the actions: ask for the 900/150000/600000-byte chunk the daemon holds and then read nothing, or a trickle of 1..1024 bytes every 0.5..4 s, staying connected; an honest handshake and LIST must then be answered within the bound —, raw control requests, forged FETCH, honest requests); non-trivial = any byzantine operation; distinct = plan hash";
     s.gen = gen_c35; s.exec = exec_c35;
     s.kernel_knobs = [](const Plan& p) { sk::Knobs k = w4_knobs(p); k.deschedule_per_65536 = static_cast<std::uint32_t>(p.knob("deschedule", 0)); return k; };
     s.crash_is_violation = true;
